@@ -220,6 +220,10 @@ def cases_translator(tier):
             {"jsonrpc": "2.0", "method": "f", "params": [x]},
             [{"jsonrpc": "2.0", "method": "f", "params": [1], "id": 1}, {"jsonrpc": "2.0", "method": "f", "params": [x], "id": 2}],
             [{"jsonrpc": "2.0", "method": "f", "params": [{"__jsonclass__": ["mc.ref.beans.Plain", []], "z": x}], "id": 1}],
+            {"jsonrpc": "2.0", "method": "f", "params": [{"__jsonclass__": ["mc.ref.beans.Plain", []], "items": [x]}], "id": 1},
+            {"jsonrpc": "2.0", "method": "f", "params": [{"__jsonclass__": ["mc.ref.beans.Plain", []], "items": [[1, {"k": [x]}]]}], "id": 1},
+            {"jsonrpc": "2.0", "method": "f", "params": [{"__jsonclass__": ["mc.ref.beans.Plain", []], "d": {"k": {"__jsonclass__": ["mc.ref.beans.Plain", []], "l": [0, x]}}}], "id": 1},
+            {"jsonrpc": "2.0", "method": "f", "params": {"p": ({"__jsonclass__": ["decimal.Decimal", ["1"]], "extra": [[x]]})}, "id": 1},
         ]
         for p in places:
             for w in W_DEFAULT:
@@ -291,8 +295,8 @@ def cases_names(tier):
 
 # registrations that change between two requests to one dispatcher: every request is resolved against the current registry
 
-MUTATIONS = ["swap-instance", "drop-instance-attribute", "add-function", "remove-function", "swap-back"]
-MUT_NAMES = ["pub", "sub.deep", "sub.inner.leaf", "only_here", "f", "pair", "nosuch", "attr"]
+MUTATIONS = ["swap-instance", "drop-instance-attribute", "add-function", "remove-function", "swap-back", "rebind-instance-attribute"]
+MUT_NAMES = ["pub", "sub.deep", "sub.inner.leaf", "only_here", "f", "pair", "nosuch", "attr", "ns.f"]
 
 
 def cases_mutations(tier):
@@ -310,7 +314,7 @@ def check_mutations(case):
     first = w.instance
 
     def step(label):
-        for n in (name, "only_here", "pub"):
+        for n in (name, "only_here", "pub", "sub.deep"):
             viols, lab, dom = ref.evaluate_body(w, B.dumps(obj("2.0", 1, n, [])))
             for prop, sig, detail in viols:
                 if prop in PROPS:
@@ -328,6 +332,9 @@ def check_mutations(case):
         elif m == "drop-instance-attribute":
             if isinstance(w.instance, ref.Inst) and hasattr(w.instance, "sub"):
                 del w.instance.sub
+        elif m == "rebind-instance-attribute":
+            if isinstance(w.instance, ref.Inst):
+                w.instance.sub = ref._SubB(w.log)
         elif m == "add-function":
             def added(*a):
                 w.log.append((name, list(a), {}))
